@@ -83,6 +83,11 @@ RICH = [
                                           ["where", [["call", ["col", "T", "a"], "notin", [["pyset", [["col", "T", "b"], ["col", "T", "c"], ["col", "T", "id"], ["col", "U", "a"], ["col", "U", "b"], ["col", "U", "c"], ["col", "U", "id"], ["col", "V", "b"], ["col", "V", "c"]]]]]]]]},
     # a row of INSERT / REPLACE given as a set (the code admits "list | tuple | set" there too)
     {"cls": "C", "sources": {}, "steps": [["into", [["src", "T"]]], ["insert", [["pyset", [["raw", "north"], ["raw", "south"], ["raw", "east"], ["raw", "west"], ["raw", "up"], ["raw", "down"]]]]]]},
+    # further places that take a collection: FOR UPDATE OF names, a frozenset as a row / in ROLLUP, a set of tuples that hold terms
+    {"cls": "C", "sources": {}, "steps": [["from_", [["src", "T"]]], ["select", [["col", "T", "a"]]], ["for_update", [], {"of": ["pyset", [["raw", "alpha"], ["raw", "beta"], ["raw", "gamma"], ["raw", "delta"], ["raw", "eps"]]]}]]},
+    {"cls": "C", "sources": {}, "steps": [["into", [["src", "T"]]], ["insert", [["pyfrozenset", [["raw", "north"], ["raw", "south"], ["raw", "east"], ["raw", "west"], ["raw", "up"]]]]]]},
+    {"cls": "C", "sources": {}, "steps": [["from_", [["src", "T"]]], ["select", [["col", "T", "a"]]], ["rollup", [["pyfrozenset", [["col", "T", "a"], ["col", "T", "b"], ["col", "T", "c"], ["col", "T", "id"]]]]],
+                                          ["where", [["call", ["tuple", [["col", "T", "a"], ["col", "T", "b"]]], "isin", [["pyset", [["pytuple", [["col", "U", "a"], ["raw", 1]]], ["pytuple", [["col", "U", "b"], ["raw", 2]]], ["pytuple", [["col", "U", "c"], ["raw", 3]]], ["pytuple", [["col", "U", "id"], ["raw", 4]]], ["pytuple", [["col", "V", "b"], ["raw", 5]]]]]]]]]]},
     # literals whose text depends on the dialect (MySQL doubles backslashes; booleans; JSON documents): a process-wide memo of rendered
     # literals would make their text depend on which class context rendered them first
     {"cls": "C", "sources": {}, "steps": [["from_", [["src", "T"]]], ["select", [["col", "T", "a"], ["vw", ["raw", "sel\\ect"]]]], ["where", [["eq", ["col", "T", "a"], ["raw", "C:\\tmp\\new"]]]],
@@ -350,7 +355,7 @@ def check_hashseed(roots, seeds):
             if results[k][i] != results[0][i]:
                 d = snap.diff_keys(results[k][i], results[0][i])
                 if k < len(seeds):
-                    out.append((mksig("hashseed", "set_as_insert_row" if '"insert", [["pyset"' in json.dumps(roots[i]) else "set_in_rollup_or_of_intervals" if '"rollup", [["pyset"' in json.dumps(roots[i]) else "set_of_json_keys" if "has_any_keys" in json.dumps(roots[i]) else (("set_of_same_named_columns" if json.dumps(roots[i]).count('"c"]') >= 3 else "set_of_terms") if '"pyset", [["col"' in json.dumps(roots[i]) else "set_argument") if '"pyset"' in json.dumps(roots[i]) else d[0].split(":")[0]), "PYTHONHASHSEED=%s vs %s: %s differs: %r vs %r" % (seeds[k], seeds[0], d[:3], results[k][i].get(d[0]), results[0][i].get(d[0]))))
+                    out.append((mksig("hashseed", "set_of_for_update_names" if '"for_update"' in json.dumps(roots[i]) else "frozenset_or_set_of_tuples" if ('"pyfrozenset"' in json.dumps(roots[i])) else "set_as_insert_row" if '"insert", [["pyset"' in json.dumps(roots[i]) else "set_in_rollup_or_of_intervals" if '"rollup", [["pyset"' in json.dumps(roots[i]) else "set_of_json_keys" if "has_any_keys" in json.dumps(roots[i]) else (("set_of_same_named_columns" if json.dumps(roots[i]).count('"c"]') >= 3 else "set_of_terms") if '"pyset", [["col"' in json.dumps(roots[i]) else "set_argument") if '"pyset"' in json.dumps(roots[i]) else d[0].split(":")[0]), "PYTHONHASHSEED=%s vs %s: %s differs: %r vs %r" % (seeds[k], seeds[0], d[:3], results[k][i].get(d[0]), results[0][i].get(d[0]))))
                 else:
                     out.append((mksig("render_history", d[0].split(":")[0]), "a fresh interpreter that renders the class contexts in order %r instead of the default one: %s differs: %r vs %r" % (
                         runs[k][1], d[:3], results[k][i].get(d[0]), results[0][i].get(d[0]))))
